@@ -12,21 +12,13 @@ import (
 	"strings"
 	"sync"
 	"testing"
-	"time"
 
-	"github.com/go-i2p/common/certificate"
-	"github.com/go-i2p/common/data"
-	"github.com/go-i2p/common/destination"
-	"github.com/go-i2p/common/encrypted_leaseset"
 	"github.com/go-i2p/common/key_certificate"
-	"github.com/go-i2p/common/keys_and_cert"
-	"github.com/go-i2p/common/lease_set2"
 	"github.com/go-i2p/common/offline_signature"
-	"github.com/go-i2p/common/router_identity"
 	"github.com/go-i2p/common/signature"
-	"github.com/go-i2p/crypto/kdf"
 
 	"i2psim.local/sim/adapters"
+	"i2psim.local/sim/consume"
 	"i2psim.local/sim/engine"
 	"i2psim.local/sim/obs"
 	"i2psim.local/sim/refmodel"
@@ -228,12 +220,12 @@ func callables(pv reflect.Value, op *engine.Op, valueBytes []byte) (methods []ca
 				keep(outs, c)
 				return c
 			}})
-		case m.Type.NumIn() >= 2 && m.Type.NumIn() <= 3 && !(m.Name == "Equals" || m.Name == "Equal") && readOnlyName(m.Name):
+		case m.Type.NumIn() >= 2 && m.Type.NumIn() <= 3 && !(m.Name == "Equals" || m.Name == "Equal") && consume.ReadOnlyName(m.Name):
 			// read-only methods that take simple arguments (GetOption, HasOption,
 			// CheckOption, IntroducerHashString, GetEntry, FindEntriesByType,
 			// VerifySignature(key bytes), ...): two fixed argument sets each
 			for variant := 0; variant < 2; variant++ {
-				args, ok := synthArgs(m.Type, variant)
+				args, ok := consume.SynthArgs(m.Type, variant)
 				if !ok {
 					break
 				}
@@ -281,7 +273,7 @@ func callables(pv reflect.Value, op *engine.Op, valueBytes []byte) (methods []ca
 			return sb.String()
 		}},
 		{"@parse-again", func(reflect.Value, reflect.Value) string { return parseAgain(op, valueBytes) }},
-		{"@hand-to-consumers", func(sh reflect.Value, _ reflect.Value) string { return consumers(sh.Interface()) }},
+		{"@hand-to-consumers", func(sh reflect.Value, _ reflect.Value) string { return consume.Consumers(sh.Interface()) }},
 		{"@observe-twice", func(sh reflect.Value, _ reflect.Value) string {
 			a := obs.Observe(sh.Interface(), obsOpt)
 			b := obs.Observe(sh.Interface(), obsOpt)
@@ -292,115 +284,6 @@ func callables(pv reflect.Value, op *engine.Op, valueBytes []byte) (methods []ca
 		}},
 	}
 	return
-}
-
-// readOnlyName excludes builders and mutators among the argument-taking methods.
-func readOnlyName(n string) bool {
-	for _, p := range []string{"Add", "Set", "With", "Build", "Zero", "Generate", "Decrypt", "Encrypt", "Sign", "New", "Remove", "Delete", "Append", "Reset", "Write", "Read", "Unmarshal", "Parse"} {
-		if strings.HasPrefix(n, p) {
-			return false
-		}
-	}
-	return true
-}
-
-var i2pStringType = reflect.TypeOf(data.I2PString{})
-
-// synthArgs builds an argument list for a method whose parameters are all of
-// simple kinds; ok=false if some parameter cannot be synthesised.
-func synthArgs(mt reflect.Type, variant int) ([]reflect.Value, bool) {
-	var args []reflect.Value
-	for i := 1; i < mt.NumIn(); i++ {
-		pt := mt.In(i)
-		switch {
-		case pt == i2pStringType:
-			str, _ := data.ToI2PString([]string{"host", "caps"}[variant])
-			args = append(args, reflect.ValueOf(str))
-		case pt.Kind() == reflect.String:
-			args = append(args, reflect.ValueOf([]string{"host", "port"}[variant]).Convert(pt))
-		case pt.Kind() >= reflect.Int && pt.Kind() <= reflect.Int64:
-			args = append(args, reflect.ValueOf([]int64{0, 2}[variant]).Convert(pt))
-		case pt.Kind() >= reflect.Uint && pt.Kind() <= reflect.Uint64:
-			args = append(args, reflect.ValueOf([]uint64{3, 1}[variant]).Convert(pt))
-		case pt.Kind() == reflect.Slice && pt.Elem().Kind() == reflect.Uint8 && pt.PkgPath() == "":
-			b := make([]byte, 32)
-			b[0] = byte(variant)
-			args = append(args, reflect.ValueOf(b))
-		case pt.Kind() == reflect.Bool:
-			args = append(args, reflect.ValueOf(variant == 1))
-		default:
-			return nil, false
-		}
-	}
-	return args, true
-}
-
-// consumers hands the shared value to the library functions that take such a
-// value as a PARAMETER and only read it: wrapping constructors, the blinding
-// and encryption entry points, verification with a caller-supplied key. What
-// they return is observed; results that depend on fresh entropy are reduced
-// to success and length.
-func consumers(v any) string {
-	var sb strings.Builder
-	date := time.Unix(4102444800, 0).UTC()
-	secret := refmodel.Expand(77, "conc-secret", 32)
-	blind := func(d destination.Destination) {
-		bd, err := encrypted_leaseset.CreateBlindedDestination(d, secret, date)
-		fmt.Fprintf(&sb, "blind:%v;", err == nil)
-		if err == nil {
-			sb.WriteString(obs.Observe(&bd, obsOpt))
-			if alpha, aerr := kdf.DeriveBlindingFactor(secret, "2100-01-01"); aerr == nil {
-				fmt.Fprintf(&sb, "check:%v;", encrypted_leaseset.VerifyBlindedSignature(bd, d, alpha))
-			}
-		}
-	}
-	switch x := v.(type) {
-	case *certificate.Certificate:
-		kc, err := key_certificate.KeyCertificateFromCertificate(x)
-		fmt.Fprintf(&sb, "keycert:%v;", err == nil)
-		if err == nil {
-			sb.WriteString(obs.Observe(kc, obsOpt))
-		}
-	case *keys_and_cert.KeysAndCert:
-		d, err := destination.NewDestination(x)
-		fmt.Fprintf(&sb, "dest:%v;", err == nil)
-		if err == nil {
-			sb.WriteString(obs.Observe(d, obsOpt))
-		}
-		ri, err := router_identity.NewRouterIdentityFromKeysAndCert(x)
-		fmt.Fprintf(&sb, "rident:%v;", err == nil)
-		if err == nil {
-			sb.WriteString(obs.Observe(ri, obsOpt))
-		}
-	case *destination.Destination:
-		if x != nil && x.KeysAndCert != nil {
-			blind(*x)
-		}
-	case *router_identity.RouterIdentity:
-		if x != nil && x.KeysAndCert != nil {
-			blind(x.AsDestination())
-		}
-	case *lease_set2.LeaseSet2:
-		var cookie [32]byte
-		pub := refmodel.Expand(78, "conc-x25519", 32)
-		ct, err := encrypted_leaseset.EncryptInnerLeaseSet2(x, cookie, pub)
-		fmt.Fprintf(&sb, "encrypt:%v:%d;", err == nil, len(ct))
-		d := x.Destination()
-		if d.KeysAndCert != nil {
-			blind(d)
-		}
-	case *encrypted_leaseset.EncryptedLeaseSet:
-		_, err := x.DecryptInnerData(make([]byte, 32), refmodel.Expand(79, "conc-priv", 32))
-		fmt.Fprintf(&sb, "decrypt-wrong-key:%v;", err == nil)
-	case *offline_signature.OfflineSignature:
-		for _, k := range [][]byte{refmodel.NewSignKey(1, 7).Pub, refmodel.NewSignKey(2, 7).Pub, refmodel.NewSignKey(3, 11).Pub} {
-			ok, err := x.VerifySignature(k)
-			fmt.Fprintf(&sb, "verify:%v:%v;", ok, err == nil)
-		}
-	default:
-		return "n/a"
-	}
-	return sb.String()
 }
 
 func private2(op *engine.Op) reflect.Value {
